@@ -34,51 +34,129 @@ type c12Oracle struct {
 	f    func(in []byte, dec bool) ([]byte, bool)
 }
 
-// c12Block runs the block-level clauses of the property on one block x:
-// Encrypt(x) equals every oracle, Decrypt(x) equals every oracle, both
-// directions invert, the source is not modified by an out-of-place call, and
-// in-place calls give the same result.  A disagreement between two oracles is
-// reported through the harness-trouble return value.
-func c12Block(name string, impl blockImpl, oracles []c12Oracle, x []byte, inplace bool) (violation, trouble error) {
+// c12Shape describes how dst and src are handed to Encrypt / Decrypt.  The
+// cipher.Block contract is about the first block of each slice ("dst and src
+// must overlap entirely or not at all"); the slices themselves may be longer
+// and may be windows of one array.
+type c12Shape struct {
+	kind   int // index into c12ShapeNames
+	off    int // start offset of the lower window inside the arena
+	k      int // distance between the two windows in blocks (>= 1) for the window kinds
+	extraS int // bytes of src beyond its first block
+	extraD int // bytes of dst beyond its first block
+}
+
+var c12ShapeNames = []string{"exact-separate", "exact-inplace", "long-separate", "long-inplace", "window-dst-after-src", "window-dst-before-src", "window-bounded-overlapping-tails", "window-adjacent-exact"}
+
+func (sh c12Shape) String() string {
+	return fmt.Sprintf("%s(off=%d,k=%d,extraSrc=%d,extraDst=%d)", c12ShapeNames[sh.kind], sh.off, sh.k, sh.extraS, sh.extraD)
+}
+
+func (sh c12Shape) inplace() bool { return sh.kind == 1 || sh.kind == 3 }
+
+func c12ShapeFromInt(i int) c12Shape {
+	return c12Shape{kind: i % len(c12ShapeNames), off: (i / 8) % 5, k: 1 + (i/40)%3, extraS: 1 + (i/3)%17, extraD: 1 + (i/5)%19}
+}
+
+func c12DrawShape(rt *rapid.T, label string) c12Shape {
+	return c12Shape{kind: uniform(rt, label+".kind", 0, len(c12ShapeNames)-1), off: uniform(rt, label+".off", 0, 9), k: uniform(rt, label+".k", 1, 3),
+		extraS: uniform(rt, label+".extraS", 1, 24), extraD: uniform(rt, label+".extraD", 1, 24)}
+}
+
+// c12Apply performs one Encrypt (dec=false) or Decrypt call on block `in` in
+// the given shape and returns the first block of dst.  It fails when anything
+// but the first block of dst changed (src block, slice tails, gaps, the arena
+// around the windows).
+func c12Apply(impl blockImpl, dec bool, in []byte, sh c12Shape) (out []byte, err error) {
+	bs := len(in)
+	var arenas [][]byte
+	arena := func(n int, salt int) []byte {
+		a := memSentinel(n, salt)
+		arenas = append(arenas, a)
+		return a
+	}
+	var dst, src []byte
+	var dstArena, dstOff int
+	switch sh.kind {
+	case 0:
+		s, d := arena(bs, 1), arena(bs, 2)
+		src, dst, dstArena, dstOff = s[:bs:bs], d[:bs:bs], 1, 0
+	case 1:
+		s := arena(bs, 1)
+		src, dst, dstArena, dstOff = s[:bs:bs], s[:bs:bs], 0, 0
+	case 2:
+		s, d := arena(sh.off+bs+sh.extraS+4, 1), arena(sh.off+bs+sh.extraD+4, 2)
+		src, dst, dstArena, dstOff = s[sh.off:sh.off+bs+sh.extraS], d[sh.off:sh.off+bs+sh.extraD], 1, sh.off
+	case 3:
+		s := arena(sh.off+bs+sh.extraS+4, 1)
+		src, dst, dstArena, dstOff = s[sh.off:sh.off+bs+sh.extraS], s[sh.off:sh.off+bs+sh.extraS], 0, sh.off
+	case 4, 5: // windows of one array running to its end, k blocks apart
+		a := arena(sh.off+(sh.k+1)*bs+sh.extraS+4, 3)
+		lo, hi := a[sh.off:], a[sh.off+sh.k*bs:]
+		if sh.kind == 4 {
+			src, dst, dstOff = lo, hi, sh.off+sh.k*bs
+		} else {
+			src, dst, dstOff = hi, lo, sh.off
+		}
+	case 6: // bounded windows whose tails reach over the other one's block
+		a := arena(sh.off+(sh.k+1)*bs+sh.extraS+sh.extraD+4, 4)
+		lo := a[sh.off : sh.off+(sh.k+1)*bs+sh.extraS] // covers the upper block entirely
+		hi := a[sh.off+sh.k*bs : sh.off+(sh.k+1)*bs+sh.extraD]
+		if sh.extraS%2 == 0 {
+			src, dst, dstOff = lo, hi, sh.off+sh.k*bs
+		} else {
+			src, dst, dstOff = hi, lo, sh.off
+		}
+	default: // adjacent exact blocks in one array
+		a := arena(sh.off+2*bs+4, 5)
+		lo, hi := a[sh.off:sh.off+bs:sh.off+bs], a[sh.off+bs:sh.off+2*bs:sh.off+2*bs]
+		if sh.extraS%2 == 0 {
+			src, dst, dstOff = lo, hi, sh.off+bs
+		} else {
+			src, dst, dstOff = hi, lo, sh.off
+		}
+	}
+	copy(src[:bs], in)
+	var snaps [][]byte
+	for _, a := range arenas {
+		snaps = append(snaps, append([]byte{}, a...))
+	}
+	if perr := noPanic(func() {
+		if dec {
+			impl.Decrypt(dst, src)
+		} else {
+			impl.Encrypt(dst, src)
+		}
+	}); perr != nil {
+		return nil, fmt.Errorf("%v with dst/src shape %v (len(dst)=%d, len(src)=%d)", perr, sh, len(dst), len(src))
+	}
+	out = append([]byte{}, arenas[dstArena][dstOff:dstOff+bs]...)
+	for ai, a := range arenas {
+		for j := range a {
+			if ai == dstArena && j >= dstOff && j < dstOff+bs {
+				continue
+			}
+			if a[j] != snaps[ai][j] {
+				return nil, fmt.Errorf("byte %d of array %d outside the first block of dst changed (%#02x -> %#02x) with dst/src shape %v", j, ai, snaps[ai][j], a[j], sh)
+			}
+		}
+	}
+	return out, nil
+}
+
+// c12Block runs the block-level clauses of the property on one block x in the
+// given dst/src shape: Encrypt(x) equals every oracle, Decrypt(x) equals every
+// oracle, both directions invert, and nothing but the first block of dst is
+// written.  A disagreement between two oracles is reported through the
+// harness-trouble return value.
+func c12Block(name string, impl blockImpl, oracles []c12Oracle, x []byte, sh c12Shape) (violation, trouble error) {
 	bs := len(x)
 	if impl.BlockSize() != bs {
 		return fmt.Errorf("%s: BlockSize() = %d, want %d", name, impl.BlockSize(), bs), nil
 	}
-	run := func(dec bool, in []byte) (out []byte, err error) {
-		err = noPanic(func() {
-			if inplace {
-				buf := append([]byte{}, in...)
-				if dec {
-					impl.Decrypt(buf, buf)
-				} else {
-					impl.Encrypt(buf, buf)
-				}
-				out = buf
-			} else {
-				src := append([]byte{}, in...)
-				dst := make([]byte, bs+4)
-				for i := range dst {
-					dst[i] = 0xa5
-				}
-				if dec {
-					impl.Decrypt(dst, src)
-				} else {
-					impl.Encrypt(dst, src)
-				}
-				if !bytes.Equal(src, in) {
-					panic("source block modified by an out-of-place call")
-				}
-				if !bytes.Equal(dst[bs:], []byte{0xa5, 0xa5, 0xa5, 0xa5}) {
-					panic("wrote beyond one block of dst")
-				}
-				out = dst[:bs]
-			}
-		})
-		return
-	}
 	for _, dec := range []bool{false, true} {
 		op := map[bool]string{false: "Encrypt", true: "Decrypt"}[dec]
-		got, err := run(dec, x)
+		got, err := c12Apply(impl, dec, x, sh)
 		if err != nil {
 			return fmt.Errorf("%s: %s(%x): %v", name, op, x, err), nil
 		}
@@ -96,17 +174,68 @@ func c12Block(name string, impl blockImpl, oracles []c12Oracle, x []byte, inplac
 			}
 		}
 		if first != nil && !bytes.Equal(got, first) {
-			return fmt.Errorf("%s: %s(%x) = %x, %s gives %x (inplace=%v)", name, op, x, got, firstName, first, inplace), nil
+			return fmt.Errorf("%s: %s(%x) = %x, %s gives %x (shape %v)", name, op, x, got, firstName, first, sh), nil
 		}
-		back, err := run(!dec, got)
+		back, err := c12Apply(impl, !dec, got, sh)
 		if err != nil {
 			return fmt.Errorf("%s: inverse of %s(%x): %v", name, op, x, err), nil
 		}
 		if !bytes.Equal(back, x) {
-			return fmt.Errorf("%s: inverse(%s(%x)) = %x (inplace=%v)", name, op, x, back, inplace), nil
+			return fmt.Errorf("%s: inverse(%s(%x)) = %x (shape %v)", name, op, x, back, sh), nil
 		}
 	}
 	return nil, nil
+}
+
+// c12Chain walks a buffer the way chaining modes do: block i is encrypted into
+// the region of block i+1 (Encrypt(buf[(i+1)*bs:], buf[i*bs:])), then the walk
+// is undone with Decrypt; every intermediate value must equal what exact,
+// separate buffers give.
+func c12Chain(name string, impl blockImpl, x []byte, n int) error {
+	bs := len(x)
+	want := [][]byte{append([]byte{}, x...)}
+	for i := 0; i < n; i++ {
+		e, err := c12Apply(impl, false, want[i], c12Shape{kind: 0})
+		if err != nil {
+			return fmt.Errorf("%s: chained walk reference step: %v", name, err)
+		}
+		want = append(want, e)
+	}
+	buf := memSentinel((n+1)*bs+6, 7)
+	tail := append([]byte{}, buf[(n+1)*bs:]...)
+	copy(buf, x)
+	if perr := noPanic(func() {
+		for i := 0; i < n; i++ {
+			impl.Encrypt(buf[(i+1)*bs:], buf[i*bs:])
+		}
+	}); perr != nil {
+		return fmt.Errorf("%s: chained walk Encrypt(buf[(i+1)*%d:], buf[i*%d:]) over %d blocks: %v", name, bs, bs, n, perr)
+	}
+	for i := 0; i <= n; i++ {
+		if !bytes.Equal(buf[i*bs:(i+1)*bs], want[i]) {
+			return fmt.Errorf("%s: chained walk: block %d of the buffer is %x, exact-buffer calls give %x", name, i, buf[i*bs:(i+1)*bs], want[i])
+		}
+	}
+	for i := 0; i <= n; i++ {
+		copy(buf[i*bs:], memSentinel(bs, i))
+	}
+	copy(buf[n*bs:], want[n])
+	if perr := noPanic(func() {
+		for i := n - 1; i >= 0; i-- {
+			impl.Decrypt(buf[i*bs:], buf[(i+1)*bs:])
+		}
+	}); perr != nil {
+		return fmt.Errorf("%s: chained walk Decrypt(buf[i*%d:], buf[(i+1)*%d:]) over %d blocks: %v", name, bs, bs, n, perr)
+	}
+	for i := 0; i <= n; i++ {
+		if !bytes.Equal(buf[i*bs:(i+1)*bs], want[i]) {
+			return fmt.Errorf("%s: chained walk back: block %d of the buffer is %x, want %x", name, i, buf[i*bs:(i+1)*bs], want[i])
+		}
+	}
+	if !bytes.Equal(buf[(n+1)*bs:], tail) {
+		return fmt.Errorf("%s: chained walk wrote behind the last block", name)
+	}
+	return nil
 }
 
 func refBlowfishOracle(st *refkdf.Blowfish) c12Oracle {
@@ -270,7 +399,8 @@ func TestC12(t *testing.T) {
 
 	rapid.Check(t, func(rt *rapid.T) {
 		kind := weighted(rt, "cipher", 20, 14, 12, 14, 10, 8, 14, 8)
-		inplace := rapid.Bool().Draw(rt, "inplace")
+		shape := c12DrawShape(rt, "shape")
+		inplace := shape.inplace()
 		var (
 			name    string
 			impl    blockImpl
@@ -279,7 +409,7 @@ func TestC12(t *testing.T) {
 			key     []byte
 			kfill   string
 			desc    string
-			nontriv = inplace
+			nontriv = shape.kind != 0
 			classes []string
 		)
 		fail := func(err error) { rt.Fatalf("VF-VIOLATION: property=C12 %v", err) }
@@ -464,7 +594,7 @@ func TestC12(t *testing.T) {
 			return
 		}
 		x, xfill := gen.Bytes(rt, "block", bs)
-		viol, trouble := c12Block(name, impl, oracles, x, inplace)
+		viol, trouble := c12Block(name, impl, oracles, x, shape)
 		if trouble != nil {
 			inconclusive(c, rt, "%v (key %x)", trouble, key)
 		}
@@ -473,10 +603,17 @@ func TestC12(t *testing.T) {
 		}
 		// the same cipher object on a second block, opposite aliasing mode
 		x2 := gen.RandBytes(rt, "block2", bs)
-		if viol, trouble := c12Block(name, impl, oracles, x2, !inplace); trouble != nil {
+		shape2 := c12DrawShape(rt, "shape2")
+		if viol, trouble := c12Block(name, impl, oracles, x2, shape2); trouble != nil {
 			inconclusive(c, rt, "%v (key %x)", trouble, key)
 		} else if viol != nil {
 			fail(fmt.Errorf("%v (key %x, %s, second block)", viol, key, desc))
+		}
+		if uniform(rt, "chain", 0, 3) == 0 {
+			if err := c12Chain(name, impl, x, uniform(rt, "chain.n", 1, 5)); err != nil {
+				fail(fmt.Errorf("%v (key %x, %s)", err, key, desc))
+			}
+			classes = append(classes, "shape=chained-walk")
 		}
 		for _, l := range lays {
 			if merr := l.check(); merr != nil {
@@ -484,10 +621,10 @@ func TestC12(t *testing.T) {
 			}
 		}
 		classes = append(classes, "mem="+memClasses[mem])
-		classes = append(classes, name, map[bool]string{true: "inplace", false: "separate"}[inplace], "key:"+kfill)
-		c.Case(nontriv, fmt.Sprintf("%s|ip%v|%s|%s", desc, inplace, kfill, xfill), classes...)
+		classes = append(classes, name, map[bool]string{true: "inplace", false: "separate"}[inplace], "key:"+kfill, "shape="+c12ShapeNames[shape.kind], "shape="+c12ShapeNames[shape2.kind])
+		c.Case(nontriv, fmt.Sprintf("%s|%s|%s|%s|%s", desc, c12ShapeNames[shape.kind], c12ShapeNames[shape2.kind], kfill, xfill), classes...)
 		if c.WantSample() {
-			c.Sample(map[string]any{"case": desc, "key": ev.Hex(key), "block": ev.Hex(x), "inplace": inplace})
+			c.Sample(map[string]any{"case": desc, "key": ev.Hex(key), "block": ev.Hex(x), "shape": shape.String(), "shape2": shape2.String()})
 		}
 	})
 
@@ -498,14 +635,19 @@ func TestC12(t *testing.T) {
 	}
 	runEnum := func(name string, impl blockImpl, oracles []c12Oracle, key []byte, i int, bs int, desc string) {
 		x := detBytes("c12.block."+name, i, bs)
-		viol, trouble := c12Block(name, impl, oracles, x, i%2 == 0)
+		viol, trouble := c12Block(name, impl, oracles, x, c12ShapeFromInt(i))
 		if trouble != nil {
 			inconclusiveT(c, t, "%v (key %x)", trouble, key)
 		}
 		if viol != nil {
 			fatal(fmt.Errorf("%v (key %x, %s)", viol, key, desc))
 		}
-		c.Case(true, "enum|"+desc, "enum:"+name)
+		if i%3 == 0 {
+			if err := c12Chain(name, impl, x, 1+i%4); err != nil {
+				fatal(fmt.Errorf("%v (key %x, %s)", err, key, desc))
+			}
+		}
+		c.Case(true, "enum|"+desc, "enum:"+name, "shape="+c12ShapeNames[c12ShapeFromInt(i).kind])
 	}
 	idx := 0
 	nBF := 0
